@@ -5,6 +5,7 @@ import (
 	"fmt"
 	"io"
 	"strconv"
+	"strings"
 	"sync"
 	"time"
 
@@ -142,6 +143,97 @@ func c08ViaProxy(r *Run) {
 		if o.dl.Before(tSent.Add(tv.d)) || o.dl.After(o.tSeen.Add(tv.d)) {
 			r.Violate("viaproxy.value", "ops", "a timeout header relayed by the proxy was not read as exactly its value", in,
 				fmt.Sprintf("handler deadline = sent + %v", o.dl.Sub(tSent)), fmt.Sprintf("between sent + %v and seen + %v", tv.d, tv.d))
+		}
+	}
+}
+
+// c08WireHeaders: the server-side reading of timeout headers, END TO END: a scripted peer sends unary
+// requests and stream opens whose header lists are drawn like those of the `hdrbetween` lock-step
+// (timeout keys in several cases, malformed and well-formed values, other headers around them) to a
+// real Serve; the handler reports whether its context has a deadline. A well-formed timeout entry
+// anywhere in the list gives a deadline (malformed ones are ignored); no timeout entry, no deadline.
+func c08WireHeaders(r *Run) {
+	if !r.Want("wireheaders") {
+		return
+	}
+	rng := r.Rand("c08.wireheaders")
+	sc := NewScript(0)
+	sc.Out = make(chan *Rpc, 4096)
+	impl := &Impl{}
+	type obs struct {
+		has bool
+		rem time.Duration
+	}
+	seen := make(chan obs, 4)
+	impl.SetUnary(func(ctx context.Context, req []byte) ([]byte, error) {
+		dl, has := ctx.Deadline()
+		seen <- obs{has, time.Until(dl)}
+		return req, nil
+	})
+	impl.SetStream(func(m string, ss grpc.ServerStream) error {
+		dl, has := ss.Context().Deadline()
+		seen <- obs{has, time.Until(dl)}
+		return nil
+	})
+	srv := goat.NewServer("srv")
+	srv.RegisterService(&echoDesc, impl)
+	served := make(chan error, 1)
+	go func() { served <- srv.Serve(context.Background(), sc) }()
+	defer func() {
+		srv.Stop()
+		sc.FailRead(io.ErrClosedPipe)
+		within(hangTimeout, func() { <-served })
+	}()
+	keys := []string{"grpc-timeout", "GRPC-Timeout", "Grpc-Timeout", "x-other", "other"}
+	vals := []string{"30S", "100m", "1H", "soon", "", "12", "7x", "-5S", "5000"}
+	wf := map[string]time.Duration{"30S": 30 * time.Second, "100m": 100 * time.Millisecond, "1H": time.Hour}
+	body, _ := goat_marshal(&wrapperspb.BytesValue{Value: []byte("x")})
+	n := r.Scale(120, 4000)
+	for i := 0; i < n && r.NumViolations() <= 4; i++ {
+		k := 1 + rng.Intn(3)
+		var kvs []*goatorepo.KeyValue
+		var firstWF time.Duration
+		anyWF, anyT := false, false
+		for j := 0; j < k; j++ {
+			key, val := keys[rng.Intn(len(keys))], vals[rng.Intn(len(vals))]
+			kvs = append(kvs, &goatorepo.KeyValue{Key: key, Value: val})
+			if strings.EqualFold(key, "grpc-timeout") {
+				anyT = true
+				if d, ok := wf[val]; ok && !anyWF {
+					anyWF, firstWF = true, d
+				}
+			}
+		}
+		stream := i%3 == 2
+		in := map[string]any{"headers": kvInput(kvs), "stream": stream}
+		r.Progress("wireheaders", in)
+		e := &Rpc{Id: uint64(i + 1), Header: &goatorepo.RequestHeader{Method: mUnary, Source: "peer", Destination: "srv", Headers: kvs}, Body: &goatorepo.Body{Data: body}}
+		if stream {
+			e = &Rpc{Id: uint64(i + 1), Header: &goatorepo.RequestHeader{Method: mBidi, Source: "peer", Destination: "srv", Headers: kvs}}
+		}
+		select {
+		case sc.In <- e:
+		case <-time.After(hangTimeout):
+			r.Violate("wireheaders.stall", "ops", "the server stopped reading", in, goroutineDump(), nil)
+			return
+		}
+		select {
+		case o := <-seen:
+			r.Eval(fmt.Sprintf("wireheaders/%d", i), true)
+			switch {
+			case anyWF && !o.has:
+				r.Violate("wireheaders.lost", "ops", "the request carries a well-formed grpc-timeout header but the handler's context has no deadline", in, "no deadline", firstWF.String())
+			case anyWF && (o.rem > firstWF || o.rem < firstWF-5*time.Second):
+				r.Violate("wireheaders.value", "ops", "the handler's deadline is not the FIRST well-formed timeout value of the request", in, o.rem.String(), firstWF.String())
+			case !anyT && o.has:
+				r.Violate("wireheaders.invented", "ops", "the handler has a deadline although the request carries no timeout header", in, o.rem.String(), "no deadline")
+			case anyT && !anyWF && o.has:
+				r.Violate("wireheaders.misread", "ops", "a malformed timeout value gave the handler a deadline", in, o.rem.String(), "no deadline")
+			}
+			r.Count("c08.wireheaders")
+		case <-time.After(hangTimeout):
+			r.Violate("wireheaders.none", "ops", "a well-routed request did not reach its handler", in, goroutineDump(), nil)
+			return
 		}
 	}
 }
